@@ -68,6 +68,10 @@ def sortKeyVals (v : Val) : Val :=
       | _, _ => false) l)
   | v => v
 
+/-- a `sum` over three or more keys: float addition is not associative and the property fixes no order of
+summation, so only the member sets are compared (the class `SumOrder` of the C05 refinement theorem) -/
+def sumOrder (agg : Agg) (ks : List Bytes) : Bool := decide (agg = .sum) && decide (ks.length ≥ 3)
+
 /-- Judge one observed step: `some true` = conforms to the specification, `some false` = does
 not, `none` = the specification does not decide this case.
 `inTx`: the operation ran inside a caller-managed transaction that went on to commit; an
@@ -94,17 +98,18 @@ def check (inTx : Bool) (op : Op) (now : Int) (pre post : DB) (res : Out) : Opti
   | .keyDeleteExpired _ =>
     -- the cleaner may only remove keys that no longer exist: the keyspace is unchanged
     some (decide (s' = s) && !isErr res)
-  | .zInter ks _ | .zUnion ks _ =>
+  | .zInter ks agg | .zUnion ks agg =>
     if isSkip r.out then none
-    else if distinct ks then some (outEq res r.out && decide (s' = r.st))
+    else if distinct ks && !sumOrder agg ks then some (outEq res r.out && decide (s' = r.st))
     else
-      -- repeated keys: members only (C05 fixes scores for lists of distinct keys)
+      -- repeated keys, or a sum over three or more keys: members only (C05 fixes scores for lists of
+      -- distinct keys; the order of a float summation is not fixed)
       (match res, r.out with
        | .ok v, .ok w => some (memberSet v == memberSet w && decide (s' = s))
        | _, _ => some false)
-  | .zInterStore d ks _ | .zUnionStore d ks _ =>
+  | .zInterStore d ks agg | .zUnionStore d ks agg =>
     if isSkip r.out then none
-    else if distinct ks then
+    else if distinct ks && !sumOrder agg ks then
       (if inTx && isErr res then some (outEq res r.out) else some (outEq res r.out && decide (s' = r.st)))
     else
       (match res, r.out with
